@@ -15,5 +15,9 @@ func main() {
 	if len(os.Args) > 1 {
 		tier = os.Args[1]
 	}
-	fmt.Println(checks.RaceComplement(tier))
+	only := ""
+	if len(os.Args) > 2 {
+		only = os.Args[2]
+	}
+	fmt.Println(checks.RaceComplementOf(tier, only))
 }
